@@ -208,22 +208,22 @@ ADDED = {
     "C03": "Also: a library-generated Block2 follow-up as the CON under test, responses to an older request, the tuning handed over as a "
            "TransportTuning subclass, a CON that had to wait behind two requests answered in turn, and a follower held back behind it and withdrawn.",
     "C05": "Also: a conforming server that states its own larger SZX in its 2.31s; later blocks refused (4.08 / 5.03) or answered without Block2; "
-           "requests carry Content-Format / Accept / query and Block2 follow-ups must be the same request.",
+           "requests carry Content-Format / Accept / query and Block2 follow-ups must be the same request; a stateless server (2.04, M=0 on every block); large responses to a client limited to smaller blocks.",
     "C06": "Also: empty and double-size non-final continuations; transfers that differ only in Request-Tag or Accept; cache / spool running empty and being refilled.",
     "C09": "Also: observable resources (declined / accepted registration) x every outcome, No-Response x outcomes, and neighbours while the "
            "acknowledgement of a separate response is lost for good.",
     "C10": "Also: the transport tuning's reliability preference (class and instance) x multicast destinations; the peer's message carrying "
-           "the node's own just-acknowledged message ID; a ping received on a multicast address gets its Reset.",
+           "the node's own just-acknowledged message ID; a ping received on a multicast address gets its Reset; a second copy of a CON request around EMPTY_ACK_DELAY (acknowledged exactly once); a multicast request given up.",
     "C11": "Also: every rejected forgery is followed by the genuine message on the same recipient; foreign contexts include absent vs empty ID "
            "context and another salt, for requests and responses; all 12 registered AEAD algorithms in both tiers; no nonce re-used by the Echo challenge "
-           "after a loss of replay state.",
+           "after a loss of replay state; response binding across a process death; the outer code depends on Observe alone.",
     "C12": "Also: state lost for real - a file-backed context accepts 1-3 requests, the process dies, after reload nothing is accepted before a fresh Echo exchange; "
            "responses of the peer with its own Partial IV never move an initialised window.",
     "C15": "Also: elective options in Ping / Release / Abort and a critical option behind an elective one; a displaced connection; CSMs without options.",
     "C16": "Also: the destination (scheme, host, port) of every accepted authority; sub-delims, ':' and '@' standing unescaped in segments; composition with Uri-Host / Uri-Port options.",
     "C17": "Also: every Uri-Path-Abbrev value routed like the spelled-out path over six .well-known trees (nested sites included); bodies arriving in Block1 blocks below nested sites.",
     "C18": "Also: an observation whose first notification is block-wise, and consumers that subscribe only after the shutdown (errback and async iteration), a cancelled consumer task, "
-           "CON notifications acknowledged late, a bystander server context, requests submitted while the shutdown is under way.",
+           "CON notifications acknowledged late, a bystander server context, a bystander that is a client of the victim, requests submitted while the shutdown is under way, the application cancelling and shutting down in one step.",
     "C19": "Also: a request answered with an error leaves the served tree unchanged (no left-over spool files); If-None-Match combined with If-Match.",
     "C20": "Also: values that need quoting in lookup results (double quote, trailing backslash), an update that sets an explicit base, conjunctive lookup filters, "
            "a valid lt next to an invalid parameter in one update, re-registration without parameters.",
